@@ -56,7 +56,7 @@ LEVEL = {
 }
 
 NOTE = ("Trusted: Lean 4.33 kernel; axioms ⊆ {propext, Classical.choice, Quot.sound} (audited per theorem on every run, no native_decide/bv_decide/sorry); "
-        "tools/gen_tables.py (constants and tables regenerated from /repo/src on every run); tools/rs2lean.py (84 pure integer functions translated from /repo/src to SqlDt/Translated.lean on every run, each proved equal to the model function for all inputs in SqlDt/Lemmas/TranslatedEq.lean; a function the translator cannot handle degrades to 'untranslated' and is tied by correspondence only – the evidence file lists the status per function); the hand-written model SqlDt/Model/*.lean and its correspondence check "
+        "tools/gen_tables.py (constants and tables regenerated from /repo/src on every run); tools/rs2lean.py (85 pure integer functions translated from /repo/src to SqlDt/Translated.lean on every run, each proved equal to the model function for all inputs in SqlDt/Lemmas/TranslatedEq.lean and overflow-free on valid inputs in TranslatedSafe.lean; a function the translator cannot handle degrades to 'untranslated' and is tied by correspondence only – the evidence file lists the status per function); the hand-written model SqlDt/Model/*.lean and its correspondence check "
         "(harness/ calls the real crate, lean/Driver.lean runs the model, identical request streams, outputs diffed). The theorems are about the model; on 64-bit/double domains "
         "the tie is boundary + seeded random sampling, on enumerable domains it is exhaustive as stated. Modelled, not verified: chrono clock (parameter), serde_json/bincode transport, "
         "String/StackStr sinks, hardware f64 (soft-float, diffed).")
@@ -75,7 +75,7 @@ def main():
             "engine": "lean-model+correspondence",
             "level_claimed": {"category": "proof", "text": LEVEL[pid], "design_ref": "DESIGN.md section 7, " + pid},
             "level_note": NOTE,
-            "technique": "machine-checked proof in Lean 4 about a model of the crate; the model is tied to /repo's source on every run by a translator (tables, constants and 84 pure integer functions regenerated from the Rust, each proved equal to the model function for all inputs) and by differential execution of model and crate on the same request streams",
+            "technique": "machine-checked proof in Lean 4 about a model of the crate; the model is tied to /repo's source on every run by a translator (tables, constants and 85 pure integer functions regenerated from the Rust, each proved equal to the model function for all inputs and free of intermediate overflow / out-of-bounds indexing on valid inputs) and by differential execution of model and crate on the same request streams",
         })
     m = {
         "version": 1,
